@@ -1,19 +1,31 @@
 //! C08 correspondence harness: drives the real timelock storage functions
-//! (packages/governance/src/timelock/storage.rs) inside the Soroban host through a thin
-//! wrapper contract, with a counting target contract, and prints every call, its outcome
-//! and a full observation of all getters for all operation ids of the trace's universe.
+//! (packages/governance/src/timelock/storage.rs) inside the Soroban host
+//!   (Lib)  through a thin wrapper contract that exposes them one to one, and
+//!   (Ctrl) through the real example contract examples/timelock-controller (included by path):
+//!          schedule_op / execute_op / cancel_op / update_delay / the getters, and - for operations that
+//!          target the controller itself - the self-administration path: an admin entry point called end
+//!          to end with a hand-built authorisation entry of the controller's own address, so that the host
+//!          dispatches to __check_auth (= set_execute_operation), or __check_auth invoked directly;
+//! with a counting target contract, and prints every call, its outcome and a full observation of all
+//! getters for all operation ids of the trace's universe.
+#![allow(clippy::too_many_arguments)]
 use soroban_sdk::{
-    contract, contractimpl, contracttype,
-    testutils::{Address as _, Ledger as _},
-    Address, BytesN, Env, IntoVal, Symbol, Val, Vec,
+    auth::{Context, ContractContext},
+    contract, contracterror, contractimpl, contracttype,
+    testutils::{Address as _, Ledger as _, MockAuthContract},
+    xdr, Address, BytesN, Env, IntoVal, Symbol, TryFromVal, Val, Vec,
 };
 use stellar_governance::timelock::{
     cancel_operation, execute_operation, get_min_delay, get_operation_ledger, get_operation_state,
     hash_operation, is_operation_done, is_operation_pending, is_operation_ready, operation_exists,
-    schedule_operation, set_execute_operation, set_min_delay, Operation, OperationState, DONE_LEDGER,
+    schedule_operation, set_execute_operation, set_min_delay, Operation, OperationState, TimelockError, DONE_LEDGER,
     UNSET_LEDGER,
 };
 use vh::*;
+
+#[path = "/repo/examples/timelock-controller/src/contract.rs"]
+mod ctrl;
+use ctrl::{OperationMeta, TimelockController, TimelockControllerClient};
 
 #[contract]
 pub struct Tl;
@@ -36,29 +48,81 @@ impl Tl {
 }
 
 #[contracttype]
-pub enum TKey { Count(u32) }
+pub enum TKey { Count(u32), Back, BackFn }
 
-/// the target of execute_operation: counts successful invocations per tag
+#[contracterror]
+#[derive(Copy, Clone, Debug, Eq, PartialEq, PartialOrd, Ord)]
+#[repr(u32)]
+pub enum TErr { Refused = 1 }
+
+/// the target of execute_operation: counts successful invocations per argument-vector id
 #[contract]
 pub struct Target;
 
+fn bump_key(e: &Env, key: u32) -> u32 {
+    let k = TKey::Count(key);
+    let c: u32 = e.storage().persistent().get(&k).unwrap_or(0) + 1;
+    e.storage().persistent().set(&k, &c);
+    c
+}
+
 #[contractimpl]
 impl Target {
-    pub fn bump(e: Env, tag: u32) -> u32 {
-        let k = TKey::Count(tag);
-        let c: u32 = e.storage().persistent().get(&k).unwrap_or(0) + 1;
-        e.storage().persistent().set(&k, &c);
-        c
-    }
+    /// the timelock that invokes this target and the name of one of its getters (for `reenter`)
+    pub fn init(e: Env, tl: Address, getter: Symbol) { e.storage().instance().set(&TKey::Back, &tl); e.storage().instance().set(&TKey::BackFn, &getter); }
+    pub fn bump(e: Env, tag: u32) -> u32 { bump_key(&e, tag) }
+    /// a function whose name extends "bump" (prefix variant): a function of its own
+    pub fn bumpx(e: Env, tag: u32) -> u32 { bump_key(&e, tag) }
+    /// returns a value of another type (unit)
+    pub fn unit(e: Env, tag: u32) { bump_key(&e, tag); }
+    /// empty argument vector (argument-vector id 5)
+    pub fn bump0(e: Env) -> u32 { bump_key(&e, 5) }
+    /// an argument vector with a duplicated element, [1, 1] (argument-vector id 6)
+    pub fn bump2(e: Env, a: u32, b: u32) -> u32 { if a != 1 || b != 1 { panic!("unexpected arguments") } bump_key(&e, 6) }
     pub fn boom(_e: Env, _tag: u32) { panic!("target traps") }
+    /// refuses with a contract error instead of trapping
+    pub fn err(_e: Env, _tag: u32) -> Result<u32, TErr> { Err(TErr::Refused) }
+    /// calls back into the timelock that is executing it (the host refuses re-entry: this traps)
+    pub fn reenter(e: Env, tag: u32) -> u32 {
+        let tl: Address = e.storage().instance().get(&TKey::Back).unwrap();
+        let f: Symbol = e.storage().instance().get(&TKey::BackFn).unwrap();
+        let zero = BytesN::<32>::from_array(&e, &[0u8; 32]);
+        let _: Val = e.invoke_contract(&tl, &f, soroban_sdk::vec![&e, zero.to_val()]);
+        bump_key(&e, tag)
+    }
     pub fn count(e: Env, tag: u32) -> u32 { e.storage().persistent().get(&TKey::Count(tag)).unwrap_or(0) }
 }
 
-/// operation descriptor of the harness universe
-#[derive(Clone)]
-struct Desc { target: u8, f: u8, tag: u32, pred: [u8; 32], salt: u8 }
+/// operation descriptor of the harness universe.
+/// target: 0 the counting target contract, 1 an address with no contract, 2 the timelock contract ITSELF,
+///         3 an account (G...) address;
+/// f: index into the function table (`World::fname`); tag: id of the argument vector (`World::args`);
+/// pred / salt: the 32 bytes.
+#[derive(Clone, PartialEq)]
+struct Desc { target: u8, f: u8, tag: u32, pred: [u8; 32], salt: [u8; 32] }
 
-const FN_NAMES: [&str; 3] = ["bump", "boom", "nope"];
+/// a descriptor before its predecessor / salt bytes are known
+#[derive(Clone)]
+enum B32 { Zero, Small(u8), Raw([u8; 32]), IdOf(usize) }
+#[derive(Clone)]
+struct Spec { target: u8, f: u8, tag: u32, pred: B32, salt: B32 }
+fn sp(target: u8, f: u8, tag: u32, pred: B32, salt: B32) -> Spec { Spec { target, f, tag, pred, salt } }
+
+// function table
+const F_BUMP: u8 = 0; const F_BOOM: u8 = 1; const F_NOPE: u8 = 2; const F_EMPTY: u8 = 3; const F_BUMPX: u8 = 4; const F_ERR: u8 = 5;
+const F_REENTER: u8 = 6; const F_UNIT: u8 = 7; const F_CASE: u8 = 8; const F_SELF: u8 = 9; const F_BUMP0: u8 = 10; const F_BUMP2: u8 = 11;
+const T_TGT: u8 = 0; const T_DEAD: u8 = 1; const T_SELF: u8 = 2; const T_ACCT: u8 = 3;
+
+const ALL_ONES: [u8; 32] = [0xFF; 32];
+const LOW1: [u8; 32] = { let mut x = [0u8; 32]; x[31] = 1; x };
+const HIGH1: [u8; 32] = { let mut x = [0u8; 32]; x[0] = 1; x };
+const XRAW: [u8; 32] = { let mut x = [0x5Au8; 32]; x[0] = 0xC3; x };
+
+/// whether the invocation (target, function, args) of a descriptor succeeds - known to the harness because it
+/// owns the target contract; the model takes it as an input of the call
+fn tgt_ok(d: &Desc) -> bool {
+    d.target == T_TGT && match d.f { F_BUMP | F_BUMPX | F_UNIT => (1..=4).contains(&d.tag), F_BUMP0 => d.tag == 5, F_BUMP2 => d.tag == 6, _ => false }
+}
 
 /// Highest ledger the harness moves to.  The test host computes `sequence + ttl - 1` with
 /// checked arithmetic when it (auto-)restores or extends an entry and escalates the overflow
@@ -73,18 +137,43 @@ const CAP: u32 = u32::MAX - 7_000_000;
 const HOSTCFG: [(u32, u32, u32); 2] = [(1, 4096, 3_110_400), (16, 2_073_600, 6_312_000)];
 /// long ledger gaps (one Advance each) between a state change and the next question about that state
 const LONG_GAPS: [u32; 6] = [20, 100, 17_281, 20_000, 600_000, 4_000_000];
+/// boundary catalogue of delays: each is scheduled, refused one ledger early and executed at its ready ledger
+const DELAY_EDGES: [u32; 20] = [2, 3, 255, 256, 257, 65_535, 65_536, 65_537, 518_400, 999_999, 1_000_000, 1_000_001,
+    16_777_215, 16_777_216, 16_777_217, 999_999_999, 1_000_000_000, 2_147_483_647, 2_147_483_648, 2_147_483_649];
+
+/// which contract carries the timelock: the thin wrapper around the library functions, or the example controller
+/// (without / with accounts in the executor role)
+#[derive(Clone, Copy, PartialEq, Debug)]
+enum Kind { Lib, Ctrl { execs: bool } }
+impl Kind {
+    fn is_ctrl(&self) -> bool { matches!(self, Kind::Ctrl { .. }) }
+    fn execs(&self) -> bool { matches!(self, Kind::Ctrl { execs: true }) }
+    fn name(&self) -> &'static str { match self { Kind::Lib => "lib", Kind::Ctrl { execs: false } => "ctrl", Kind::Ctrl { execs: true } => "ctrlx" } }
+}
+const KINDS: [Kind; 3] = [Kind::Lib, Kind::Ctrl { execs: false }, Kind::Ctrl { execs: true }];
+
+type GetR<T> = Result<Result<T, soroban_sdk::ConversionError>, Result<soroban_sdk::Error, soroban_sdk::InvokeError>>;
+fn flat<T>(r: GetR<T>) -> Option<T> { match r { Ok(Ok(v)) => Some(v), _ => None } }
 
 struct World {
     e: Env,
+    kind: Kind,
     tl: Address,
     tgt: Address,
     dead: Address,
+    acct: Address,
+    p: Address,   // proposer + canceller (Ctrl)
+    x: Address,   // executor (Ctrl with executors)
+    adm: Address, // external admin (Ctrl): update_delay
+    gr: [Address; 2], // accounts the self-administration operations grant a role to (Ctrl)
     ids: std::vec::Vec<[u8; 32]>, // index = small integer id; ids[0] = zero
     now: u32,
+    nonce: i64,
 }
 
 impl World {
-    fn new(now: u32, hc: usize) -> World {
+    /// `d0`: the minimum delay given to the controller's constructor (Ctrl only)
+    fn new(kind: Kind, now: u32, hc: usize, d0: u32) -> World {
         let e = Env::default();
         e.cost_estimate().budget().reset_unlimited();
         e.cost_estimate().disable_resource_limits();
@@ -94,10 +183,37 @@ impl World {
             l.min_persistent_entry_ttl = HOSTCFG[hc].1;
             l.max_entry_ttl = HOSTCFG[hc].2;
         });
-        let tl = e.register(Tl, ());
         let tgt = e.register(Target, ());
         let dead = Address::generate(&e);
-        World { e, tl, tgt, dead, ids: std::vec![[0u8; 32]], now }
+        let acct = Address::try_from_val(&e, &xdr::ScAddress::Account(xdr::AccountId(xdr::PublicKey::PublicKeyTypeEd25519(xdr::Uint256([7u8; 32]))))).unwrap();
+        let (p, x, adm) = (Address::generate(&e), Address::generate(&e), Address::generate(&e));
+        let gr = [Address::generate(&e), Address::generate(&e)];
+        let tl = match kind {
+            Kind::Lib => e.register(Tl, ()),
+            Kind::Ctrl { execs } => {
+                // ordinary accounts: always-accepting account contracts (exact entries are still required)
+                for a in [&p, &x, &adm] { e.register_at(a, MockAuthContract, ()); }
+                let props: Vec<Address> = soroban_sdk::vec![&e, p.clone()];
+                let exs: Vec<Address> = if execs { soroban_sdk::vec![&e, x.clone()] } else { Vec::new(&e) };
+                e.register(TimelockController, (d0, props, exs, Some(adm.clone())))
+            }
+        };
+        let getter = if kind.is_ctrl() { "operation_exists" } else { "exists" };
+        TargetClient::new(&e, &tgt).init(&tl, &Symbol::new(&e, getter));
+        let mut w = World { e, kind, tl, tgt, dead, acct, p, x, adm, gr, ids: std::vec![[0u8; 32]], now, nonce: 1000 };
+        if kind.is_ctrl() {
+            // fixture (not part of the trace): the controller's own address administers the role "minter" (it holds
+            // "madmin", the admin role of "minter"), so that grant_role(_, minter, controller) needs the controller's
+            // authorisation = __check_auth = a scheduled, ready self-administration operation
+            let e = w.e.clone();
+            let (minter, madmin) = (Symbol::new(&e, "minter"), Symbol::new(&e, "madmin"));
+            let a1: Vec<Val> = soroban_sdk::vec![&e, minter.to_val(), madmin.to_val()];
+            let adm = w.adm.clone();
+            assert!(w.invoke_as(&[&adm], "set_role_admin", a1).is_some(), "fixture: set_role_admin");
+            let a2: Vec<Val> = soroban_sdk::vec![&e, w.tl.to_val(), madmin.to_val(), w.adm.to_val()];
+            assert!(w.invoke_as(&[&adm], "grant_role", a2).is_some(), "fixture: grant_role(madmin)");
+        }
+        w
     }
     fn id_ix(&mut self, b: [u8; 32]) -> u64 {
         if let Some(p) = self.ids.iter().position(|x| *x == b) { return p as u64; }
@@ -105,30 +221,170 @@ impl World {
         (self.ids.len() - 1) as u64
     }
     fn bytes(&self, b: &[u8; 32]) -> BytesN<32> { BytesN::from_array(&self.e, b) }
-    fn operation(&self, d: &Desc) -> Operation {
-        // built afresh on every use: equal descriptors must give equal ids
-        let mut salt = [0u8; 32];
-        salt[31] = d.salt;
-        let args: Vec<Val> = soroban_sdk::vec![&self.e, d.tag.into_val(&self.e)];
-        Operation {
-            target: if d.target == 0 { self.tgt.clone() } else { self.dead.clone() },
-            function: Symbol::new(&self.e, FN_NAMES[d.f as usize]),
-            args,
-            predecessor: self.bytes(&d.pred),
-            salt: self.bytes(&salt),
+    fn fname(&self, f: u8) -> &'static str {
+        match f {
+            F_BUMP => "bump", F_BOOM => "boom", F_NOPE => "nope", F_EMPTY => "", F_BUMPX => "bumpx", F_ERR => "err", F_REENTER => "reenter",
+            F_UNIT => "unit", F_CASE => "Bump", F_SELF => if self.kind.is_ctrl() { "grant_role" } else { "set_min" }, F_BUMP0 => "bump0", F_BUMP2 => "bump2",
+            _ => "zzz",
         }
     }
+    fn target(&self, t: u8) -> Address { match t { T_TGT => self.tgt.clone(), T_DEAD => self.dead.clone(), T_SELF => self.tl.clone(), _ => self.acct.clone() } }
+    /// argument vector by id: 1..4 -> [id], 5 -> [], 6 -> [1, 1], 7 / 8 -> (grantee, "minter", controller)
+    fn args(&self, tag: u32) -> Vec<Val> {
+        let e = &self.e;
+        match tag {
+            5 => Vec::new(e),
+            6 => soroban_sdk::vec![e, 1u32.into_val(e), 1u32.into_val(e)],
+            7 | 8 => soroban_sdk::vec![e, self.gr[(tag - 7) as usize].to_val(), Symbol::new(e, "minter").to_val(), self.tl.to_val()],
+            t => soroban_sdk::vec![e, t.into_val(e)],
+        }
+    }
+    fn operation(&self, d: &Desc) -> Operation {
+        // built afresh on every use: equal descriptors must give equal ids
+        Operation { target: self.target(d.target), function: Symbol::new(&self.e, self.fname(d.f)), args: self.args(d.tag), predecessor: self.bytes(&d.pred), salt: self.bytes(&d.salt) }
+    }
+    /// salts with only the last byte set are printed as that byte, other salts as 1000 + their index in the id universe
+    fn salt_n(&mut self, s: &[u8; 32]) -> u64 { if s[..31].iter().all(|x| *x == 0) { s[31] as u64 } else { 1000 + self.id_ix(*s) } }
     fn op_coq(&mut self, d: &Desc) -> String {
         let p = self.id_ix(d.pred);
-        format!("(Op {} {} {} {} {})", n(d.target as u64 + 1), n(d.f as u64), n(d.tag as u64), n(p), n(d.salt as u64))
+        let s = self.salt_n(&d.salt);
+        format!("(Op {} {} {} {} {})", n(d.target as u64 + 1), n(d.f as u64), n(d.tag as u64), n(p), n(s))
     }
     fn set_now(&mut self, now: u32) {
         self.now = now;
         self.e.ledger().with_mut(|l| l.sequence_number = now);
     }
-}
 
-fn to_arr(b: &BytesN<32>) -> [u8; 32] { b.to_array() }
+    // ---------- XDR authorisation entries (Ctrl) ----------
+    fn invocation(&self, f: &str, args: Vec<Val>) -> xdr::SorobanAuthorizedInvocation {
+        xdr::SorobanAuthorizedInvocation {
+            function: xdr::SorobanAuthorizedFunction::ContractFn(xdr::InvokeContractArgs {
+                contract_address: xdr::ScAddress::try_from(&self.tl).unwrap(),
+                function_name: f.try_into().unwrap(),
+                args: args.try_into().unwrap(),
+            }),
+            sub_invocations: std::vec![].try_into().unwrap(),
+        }
+    }
+    fn entry(&mut self, who: &Address, signature: xdr::ScVal, root: xdr::SorobanAuthorizedInvocation) -> xdr::SorobanAuthorizationEntry {
+        self.nonce += 1;
+        xdr::SorobanAuthorizationEntry {
+            root_invocation: root,
+            credentials: xdr::SorobanCredentials::Address(xdr::SorobanAddressCredentials {
+                address: xdr::ScAddress::try_from(who).unwrap(),
+                nonce: self.nonce,
+                signature_expiration_ledger: self.now.saturating_add(10),
+                signature,
+            }),
+        }
+    }
+    fn invoke_with(&mut self, entries: std::vec::Vec<xdr::SorobanAuthorizationEntry>, f: &str, args: Vec<Val>) -> Option<Val> {
+        self.e.set_auths(&entries);
+        let r = self.e.try_invoke_contract::<Val, soroban_sdk::Error>(&self.tl, &Symbol::new(&self.e, f), args);
+        self.e.set_auths(&[]);
+        match r { Ok(Ok(v)) => Some(v), _ => None }
+    }
+    /// invoke `f(args)` of the controller with an exact entry of each of `who` for this very invocation
+    fn invoke_as(&mut self, who: &[&Address], f: &str, args: Vec<Val>) -> Option<Val> {
+        let mut en = std::vec![];
+        for a in who { let inv = self.invocation(f, args.clone()); en.push(self.entry(a, xdr::ScVal::Void, inv)); }
+        self.invoke_with(en, f, args)
+    }
+
+    // ---------- the calls ----------
+    fn hash(&self, d: &Desc) -> [u8; 32] {
+        let op = self.operation(d);
+        let r = match self.kind {
+            Kind::Lib => flat(TlClient::new(&self.e, &self.tl).try_hash(&op)),
+            _ => flat(TimelockControllerClient::new(&self.e, &self.tl).try_hash_operation(&op.target, &op.function, &op.args, &op.predecessor, &op.salt)),
+        };
+        match r { Some(v) => v.to_array(), None => [0xEEu8; 32] }
+    }
+    fn schedule(&mut self, d: &Desc, delay: u32) -> Option<[u8; 32]> {
+        let op = self.operation(d);
+        match self.kind {
+            Kind::Lib => flat(TlClient::new(&self.e, &self.tl).try_schedule(&op, &delay)).map(|v| v.to_array()),
+            _ => {
+                let e = self.e.clone();
+                let args: Vec<Val> = (op.target, op.function, op.args, op.predecessor, op.salt, delay, self.p.clone()).into_val(&e);
+                let p = self.p.clone();
+                self.invoke_as(&[&p], "schedule_op", args).map(|v| BytesN::<32>::try_from_val(&e, &v).unwrap().to_array())
+            }
+        }
+    }
+    fn execute(&mut self, d: &Desc) -> bool {
+        let op = self.operation(d);
+        match self.kind {
+            Kind::Lib => flat(TlClient::new(&self.e, &self.tl).try_execute(&op)).is_some(),
+            Kind::Ctrl { execs } => {
+                let e = self.e.clone();
+                let ex: Option<Address> = if execs { Some(self.x.clone()) } else { None };
+                let args: Vec<Val> = (op.target, op.function, op.args, op.predecessor, op.salt, ex).into_val(&e);
+                let x = self.x.clone();
+                if execs { self.invoke_as(&[&x], "execute_op", args).is_some() } else { self.invoke_as(&[], "execute_op", args).is_some() }
+            }
+        }
+    }
+    /// set_execute_operation alone.  Lib: the wrapper's entry point.  Ctrl (self-targeting operations only): `direct` =
+    /// __check_auth invoked directly with (descriptor, context); otherwise the operation's admin function is called
+    /// end to end with an authorisation entry of the controller's own address whose signature is the descriptor
+    fn set_exec(&mut self, d: &Desc, direct: bool) -> bool {
+        let op = self.operation(d);
+        match self.kind {
+            Kind::Lib => flat(TlClient::new(&self.e, &self.tl).try_set_exec(&op)).is_some(),
+            Kind::Ctrl { execs } => {
+                assert!(d.target == T_SELF, "harness: the controller performs set_execute_operation only for itself");
+                let e = self.e.clone();
+                let meta = OperationMeta { predecessor: op.predecessor.clone(), salt: op.salt.clone(), executor: if execs { Some(self.x.clone()) } else { None } };
+                let metas: Vec<OperationMeta> = soroban_sdk::vec![&e, meta];
+                // what the executor signs inside __check_auth
+                let xargs: Vec<Val> = (Symbol::new(&e, "execute_op"), self.tl.clone(), op.function.clone(), op.args.clone(), op.predecessor.clone(), op.salt.clone()).into_val(&e);
+                let x = self.x.clone();
+                if direct {
+                    let mut en = std::vec![];
+                    if execs { let inv = self.invocation("__check_auth", xargs); en.push(self.entry(&x, xdr::ScVal::Void, inv)); }
+                    self.e.set_auths(&en);
+                    let mut cv: Vec<Context> = Vec::new(&e);
+                    cv.push_back(Context::Contract(ContractContext { contract: self.tl.clone(), fn_name: op.function.clone(), args: op.args.clone() }));
+                    let r = e.try_invoke_contract_check_auth::<TimelockError>(&self.tl, &BytesN::from_array(&e, &[9u8; 32]), metas.into_val(&e), &cv);
+                    self.e.set_auths(&[]);
+                    r.is_ok()
+                } else {
+                    let sig: xdr::ScVal = xdr::ScVal::try_from_val(&e, &metas.to_val()).unwrap();
+                    let tl = self.tl.clone();
+                    let fname = self.fname(d.f);
+                    let root = self.invocation(fname, op.args.clone());
+                    let mut en = std::vec![self.entry(&tl, sig, root)];
+                    if execs { let inv = self.invocation("__check_auth", xargs); en.push(self.entry(&x, xdr::ScVal::Void, inv)); }
+                    self.invoke_with(en, fname, op.args).is_some()
+                }
+            }
+        }
+    }
+    fn cancel(&mut self, id: &[u8; 32]) -> bool {
+        let idb = self.bytes(id);
+        match self.kind {
+            Kind::Lib => flat(TlClient::new(&self.e, &self.tl).try_cancel(&idb)).is_some(),
+            _ => { let e = self.e.clone(); let p = self.p.clone(); let args: Vec<Val> = (idb, p.clone()).into_val(&e); self.invoke_as(&[&p], "cancel_op", args).is_some() }
+        }
+    }
+    fn set_min(&mut self, d: u32) -> bool {
+        match self.kind {
+            Kind::Lib => flat(TlClient::new(&self.e, &self.tl).try_set_min(&d)).is_some(),
+            _ => { let e = self.e.clone(); let a = self.adm.clone(); let args: Vec<Val> = soroban_sdk::vec![&e, d.into_val(&e)]; self.invoke_as(&[&a], "update_delay", args).is_some() }
+        }
+    }
+    // ---------- the getters (every read through try_) ----------
+    fn g_min(&self) -> Option<u32> { match self.kind { Kind::Lib => flat(TlClient::new(&self.e, &self.tl).try_min_delay()), _ => flat(TimelockControllerClient::new(&self.e, &self.tl).try_get_min_delay()) } }
+    fn g_ledger(&self, id: &BytesN<32>) -> Option<u32> { match self.kind { Kind::Lib => flat(TlClient::new(&self.e, &self.tl).try_ledger_of(id)), _ => flat(TimelockControllerClient::new(&self.e, &self.tl).try_get_operation_ledger(id)) } }
+    fn g_state(&self, id: &BytesN<32>) -> Option<OperationState> { match self.kind { Kind::Lib => flat(TlClient::new(&self.e, &self.tl).try_state_of(id)), _ => flat(TimelockControllerClient::new(&self.e, &self.tl).try_get_operation_state(id)) } }
+    fn g_flags(&self, id: &BytesN<32>) -> [Option<bool>; 4] {
+        match self.kind {
+            Kind::Lib => { let c = TlClient::new(&self.e, &self.tl); [flat(c.try_exists(id)), flat(c.try_pending(id)), flat(c.try_ready(id)), flat(c.try_done(id))] }
+            _ => { let c = TimelockControllerClient::new(&self.e, &self.tl); [flat(c.try_operation_exists(id)), flat(c.try_is_operation_pending(id)), flat(c.try_is_operation_ready(id)), flat(c.try_is_operation_done(id))] }
+        }
+    }
+}
 
 fn st_name(s: OperationState) -> &'static str {
     match s { OperationState::Unset => "Unset", OperationState::Waiting => "Waiting", OperationState::Ready => "Ready", OperationState::Done => "Done" }
@@ -136,20 +392,20 @@ fn st_name(s: OperationState) -> &'static str {
 
 /// all getters for every id of the universe + the mock's counters
 fn observe(w: &World, nids: usize, tags: &[u32]) -> String {
-    let c = TlClient::new(&w.e, &w.tl);
     let t = TargetClient::new(&w.e, &w.tgt);
-    let md = match c.try_min_delay() { Ok(Ok(v)) => Some(format!("{}", v)), _ => None };
+    let md = w.g_min().map(|v| format!("{}", v));
     let mut ops = std::vec::Vec::new();
     for k in 0..nids {
         let idb = w.bytes(&w.ids[k]);
         // every read goes through try_: a trapping getter sets the trap flag of the view (the other fields are then
         // placeholders); diff (model: never trapped) and monitor (view_coherent) both flag it
         let mut trap = false;
-        let lg = match c.try_ledger_of(&idb) { Ok(Ok(v)) => format!("{}", v), _ => { trap = true; "(-1)".to_string() } };
-        let st = match c.try_state_of(&idb) { Ok(Ok(v)) => st_name(v), _ => { trap = true; "Unset" } };
-        let mut fl = |r: Result<Result<bool, soroban_sdk::ConversionError>, Result<soroban_sdk::Error, soroban_sdk::InvokeError>>| match r { Ok(Ok(v)) => b(v), _ => { trap = true; b(false) } };
-        let (f1, f2, f3, f4) = (fl(c.try_exists(&idb)), fl(c.try_pending(&idb)), fl(c.try_ready(&idb)), fl(c.try_done(&idb)));
-        let ov = format!("(OV {} {} {} {} {} {} {})", lg, st, f1, f2, f3, f4, b(trap));
+        let lg = match w.g_ledger(&idb) { Some(v) => format!("{}", v), None => { trap = true; "(-1)".to_string() } };
+        let st = match w.g_state(&idb) { Some(v) => st_name(v), None => { trap = true; "Unset" } };
+        let fl = w.g_flags(&idb);
+        let mut fs = std::vec![];
+        for f in fl.iter() { fs.push(match f { Some(v) => b(*v), None => { trap = true; b(false) } }); }
+        let ov = format!("(OV {} {} {} {} {} {} {})", lg, st, fs[0], fs[1], fs[2], fs[3], b(trap));
         ops.push(pair(&n(k as u64), &ov));
     }
     let mut runs = std::vec::Vec::new();
@@ -157,79 +413,37 @@ fn observe(w: &World, nids: usize, tags: &[u32]) -> String {
     format!("(Obs {} {} {} {})", w.now, opt(md), list(&ops), list(&runs))
 }
 
+/// `L`: a situation label of a directed script (no call); `SetExecuteDirect`: the sibling way to reach
+/// set_execute_operation (Ctrl: __check_auth invoked directly; Lib: the same entry point as SetExecute)
 #[derive(Clone, Debug)]
-enum C { Schedule(usize, u32), Execute(usize), SetExecute(usize), Cancel(usize), SetMin(u32), Advance(u32) }
+enum C { Schedule(usize, u32), Execute(usize), SetExecute(usize), SetExecuteDirect(usize), Cancel(usize), SetMin(u32), Advance(u32), L(&'static str) }
 
 struct Tr { w: World, descs: std::vec::Vec<Desc>, op_ids: std::vec::Vec<usize>, nids: usize, tags: std::vec::Vec<u32>, now0: u32, tbl: std::vec::Vec<String>, obs0: String, items: std::vec::Vec<String>,
             pair_labels: std::vec::Vec<&'static str>, cancelled: std::collections::HashSet<usize> }
 
 impl Tr {
-    /// build a universe of operations; `shape` selects the predecessor structure
-    fn new(rng: &mut Rng, now0: u32, nops: usize, shape: u64, hc: usize) -> Tr {
-        let mut w = World::new(now0, hc);
-        let c = TlClient::new(&w.e, &w.tl);
-        // a raw id that is never the hash of a scheduled operation
-        let mut raw = [0u8; 32];
-        for x in raw.iter_mut() { *x = rng.below(256) as u8; }
-        let raw_ix = w.id_ix(raw) as usize;
+    /// a universe of operations from explicit specifications; `extra`: further ids to observe (cancel / predecessor values)
+    fn build(kind: Kind, now0: u32, hc: usize, d0: u32, extra: &[[u8; 32]], specs: &[Spec]) -> Tr {
+        let mut w = World::new(kind, now0, hc, d0);
+        for x in extra { w.id_ix(*x); }
         let mut descs: std::vec::Vec<Desc> = std::vec![];
         let mut op_ids: std::vec::Vec<usize> = std::vec![];
         let mut tbl = std::vec::Vec::new();
-        for k in 0..nops {
-            let pred: [u8; 32] = match shape {
-                0 => if k == 0 { [0u8; 32] } else { w.ids[op_ids[k - 1]] },                 // chain
-                1 => [0u8; 32],                                                          // independent
-                _ => match rng.below(10) {
-                    0..=3 => [0u8; 32],
-                    4..=7 => if k == 0 { [0u8; 32] } else { w.ids[op_ids[rng.below(k as u64) as usize]] },
-                    _ => raw,
-                },
-            };
-            let (target, f) = match rng.below(12) { 0 => (1u8, 0u8), 1 => (0, 1), 2 => (0, 2), _ => (0, 0) };
-            let (target, f) = if shape == 0 || k == 0 { (0, 0) } else { (target, f) };
-            if shape == 9 {
-                // descriptors that differ from the first one in exactly ONE of the five id components, + an unscheduled predecessor
-                let z = [0u8; 32];
-                let d = match k {
-                    0 => Desc { target: 0, f: 0, tag: 1, pred: z, salt: 0 },
-                    1 => Desc { target: 1, f: 0, tag: 1, pred: z, salt: 0 },                 // target only
-                    2 => Desc { target: 0, f: 1, tag: 1, pred: z, salt: 0 },                 // function only (and it traps)
-                    3 => Desc { target: 0, f: 0, tag: 2, pred: z, salt: 0 },                 // arguments only
-                    4 => Desc { target: 0, f: 0, tag: 1, pred: w.ids[op_ids[3]], salt: 0 },  // predecessor only
-                    5 => Desc { target: 0, f: 0, tag: 1, pred: z, salt: 1 },                 // salt only
-                    _ => Desc { target: 0, f: 0, tag: 3, pred: raw, salt: 0 },               // predecessor never scheduled
-                };
-                let h = match c.try_hash(&w.operation(&d)) { Ok(Ok(v)) => to_arr(&v), _ => [0xEEu8; 32] };
-                let ix = w.id_ix(h) as usize;
-                let oc = w.op_coq(&d);
-                tbl.push(pair(&oc, &n(ix as u64)));
-                descs.push(d); op_ids.push(ix);
-                continue;
-            }
-            // same (target, fn, args, pred) with a different salt now and then
-            let d = if k > 0 && shape >= 2 && rng.chance(1, 5) {
-                // a twin of an earlier descriptor that differs in exactly one component
-                let mut d = descs[rng.below(k as u64) as usize].clone();
-                match rng.below(6) { 0 => d.target = 1 - d.target, 1 => d.f = (d.f + 1 + rng.below(2) as u8) % 3, 2 => d.tag = 1 + (d.tag % 4), _ => d.salt = d.salt.wrapping_add(1 + rng.below(2) as u8) }
-                d
-            } else { Desc { target, f, tag: 1 + (k as u32 % 4), pred, salt: rng.below(2) as u8 } };
+        for s in specs {
+            let res = |b: &B32, w: &World, op_ids: &std::vec::Vec<usize>| -> [u8; 32] { match b { B32::Zero => [0u8; 32], B32::Small(v) => { let mut x = [0u8; 32]; x[31] = *v; x } B32::Raw(r) => *r, B32::IdOf(j) => w.ids[op_ids[*j]] } };
+            let mut d = Desc { target: s.target, f: s.f, tag: s.tag, pred: res(&s.pred, &w, &op_ids), salt: res(&s.salt, &w, &op_ids) };
             // no duplicate descriptors in the universe
-            let d = if descs.iter().any(|x| x.target == d.target && x.f == d.f && x.tag == d.tag && x.pred == d.pred && x.salt == d.salt) {
-                Desc { salt: 10 + k as u8, ..d } } else { d };
-            let h = match c.try_hash(&w.operation(&d)) { Ok(Ok(v)) => to_arr(&v), _ => [0xEEu8; 32] };
+            if descs.iter().any(|x| *x == d) { d.salt = [0u8; 32]; d.salt[31] = 10 + descs.len() as u8; }
+            let h = w.hash(&d);
             let ix = w.id_ix(h) as usize;
             let oc = w.op_coq(&d);
             tbl.push(pair(&oc, &n(ix as u64)));
             descs.push(d);
             op_ids.push(ix);
         }
-        let _ = raw_ix;
         let nids = w.ids.len();
-        let tags: std::vec::Vec<u32> = std::vec![1, 2, 3, 4];
-        let idl: std::vec::Vec<String> = (0..nids).map(|k| n(k as u64)).collect();
-        let tagl: std::vec::Vec<String> = tags.iter().map(|t| n(*t as u64)).collect();
-        let obs0 = observe(&w, nids, &tags);
-        let _ = (idl, tagl);
+        let mut tags: std::vec::Vec<u32> = std::vec![1, 2, 3, 4];
+        for d in descs.iter() { if !tags.contains(&d.tag) { tags.push(d.tag); } }
         // which id components are exercised by a pair of descriptors differing in exactly that component
         let mut pair_labels: std::vec::Vec<&'static str> = std::vec![];
         for i in 0..descs.len() { for j in (i + 1)..descs.len() {
@@ -239,14 +453,81 @@ impl Tr {
                 pair_labels.push(["pair/target-only", "pair/function-only", "pair/args-only", "pair/predecessor-only", "pair/salt-only"][diff.iter().position(|x| *x).unwrap()]);
             }
         } }
-        Tr { w, descs, op_ids, nids, tags, now0, tbl, obs0, items: std::vec![], pair_labels, cancelled: Default::default() }
+        let mut tr = Tr { w, descs, op_ids, nids, tags, now0, tbl, obs0: String::new(), items: std::vec![], pair_labels, cancelled: Default::default() };
+        if kind.is_ctrl() {
+            // the controller exists only once constructed, and its constructor sets the minimum delay: the trace starts
+            // from "nothing stored" (stipulated: the observation of a contract that does not exist yet) and its first
+            // event is the constructor as SetMinDelay d0, with the first real observation
+            let ops: std::vec::Vec<String> = (0..nids).map(|k| pair(&n(k as u64), "(OV 0 Unset false false false false false)")).collect();
+            let runs: std::vec::Vec<String> = tr.tags.iter().map(|t| pair(&n(*t as u64), "0")).collect();
+            tr.obs0 = format!("(Obs {} None {} {})", now0, list(&ops), list(&runs));
+            let obs = observe(&tr.w, nids, &tr.tags);
+            tr.items.push(format!("(SetMinDelay {}, OkN, {})", d0, obs));
+        } else {
+            tr.obs0 = observe(&tr.w, nids, &tr.tags);
+        }
+        tr
     }
 
+    /// build a universe of operations; `shape` selects the predecessor structure
+    fn new(rng: &mut Rng, kind: Kind, now0: u32, nops: usize, shape: u64, hc: usize, d0: u32) -> Tr {
+        // a raw id that is never the hash of a scheduled operation
+        let mut raw = [0u8; 32];
+        for x in raw.iter_mut() { *x = rng.below(256) as u8; }
+        let mut specs: std::vec::Vec<Spec> = std::vec![];
+        for k in 0..nops {
+            let pred: B32 = match shape {
+                0 => if k == 0 { B32::Zero } else { B32::IdOf(k - 1) },                          // chain
+                1 => B32::Zero,                                                                // independent
+                _ => match rng.below(10) {
+                    0..=3 => B32::Zero,
+                    4..=7 => if k == 0 { B32::Zero } else { B32::IdOf(rng.below(k as u64) as usize) },
+                    _ => B32::Raw(raw),
+                },
+            };
+            let (target, f) = match rng.below(16) { 0 => (T_DEAD, F_BUMP), 1 => (T_TGT, F_BOOM), 2 => (T_TGT, F_NOPE), 3 | 4 => (T_SELF, F_SELF), 5 => (T_ACCT, F_BUMP),
+                6 => (T_TGT, *rng.pick(&[F_EMPTY, F_BUMPX, F_ERR, F_REENTER, F_UNIT, F_CASE])), _ => (T_TGT, F_BUMP) };
+            let (target, f) = if shape == 0 || k == 0 { (T_TGT, F_BUMP) } else { (target, f) };
+            if shape == 9 {
+                // descriptors that differ from the first one in exactly ONE of the five id components, + an unscheduled predecessor
+                let z = B32::Zero;
+                specs.push(match k {
+                    0 => sp(T_TGT, F_BUMP, 1, z.clone(), z),
+                    1 => sp(T_DEAD, F_BUMP, 1, z.clone(), z),               // target only
+                    2 => sp(T_TGT, F_BOOM, 1, z.clone(), z),                // function only (and it traps)
+                    3 => sp(T_TGT, F_BUMP, 2, z.clone(), z),                // arguments only
+                    4 => sp(T_TGT, F_BUMP, 1, B32::IdOf(3), z),             // predecessor only
+                    5 => sp(T_TGT, F_BUMP, 1, z, B32::Small(1)),            // salt only
+                    _ => sp(T_TGT, F_BUMP, 3, B32::Raw(raw), z),            // predecessor never scheduled
+                });
+                continue;
+            }
+            let self_tag = |k: usize| if kind.is_ctrl() { 7 + (k as u32 % 2) } else { 1 + (k as u32 % 4) };
+            // same (target, fn, args, pred) with a different salt now and then
+            let s = if k > 0 && shape >= 2 && rng.chance(1, 5) {
+                // a twin of an earlier descriptor that differs in exactly one component
+                let mut s = specs[rng.below(k as u64) as usize].clone();
+                let small = |b: &B32| match b { B32::Small(v) => *v, _ => 0 };
+                match rng.below(6) {
+                    0 => if s.target != T_SELF { s.target = if s.target == T_TGT { T_DEAD } else { T_TGT } } else { s.salt = B32::Small(small(&s.salt).wrapping_add(1)) },
+                    1 => if s.target != T_SELF { s.f = (s.f + 1 + rng.below(2) as u8) % 3 } else { s.salt = B32::Small(small(&s.salt).wrapping_add(2)) },
+                    2 => s.tag = if s.target == T_SELF { if kind.is_ctrl() { 15 - s.tag } else { 1 + (s.tag % 4) } } else { 1 + (s.tag % 4) },
+                    _ => s.salt = B32::Small(small(&s.salt).wrapping_add(1 + rng.below(2) as u8)),
+                }
+                s
+            } else { sp(target, f, if target == T_SELF { self_tag(k) } else { 1 + (k as u32 % 4) }, pred, B32::Small(rng.below(2) as u8)) };
+            specs.push(s);
+        }
+        Tr::build(kind, now0, hc, d0, &[raw], &specs)
+    }
+
+    fn lab(&self, l: &str) -> String { if self.w.kind.is_ctrl() { format!("ctrl.{}", l) } else { l.to_string() } }
+
     fn call(&mut self, out: &mut Out, c: &C) -> bool {
-        let cl = TlClient::new(&self.w.e, &self.w.tl);
         let (text, lab, res): (String, &str, Option<Option<u64>>) = match c {
+            C::L(l) => { out.label(l); return true; }
             C::Schedule(k, d) => {
-                let op = self.w.operation(&self.descs[*k]);
+                let ds = self.descs[*k].clone();
                 {
                     let st = self.state_ix(self.op_ids[*k]);
                     let m = self.min_delay();
@@ -256,19 +537,18 @@ impl Tr {
                     if st == 3 { out.label("situation/schedule-done-again"); }
                     if st == 0 && self.cancelled.contains(&self.op_ids[*k]) { out.label("situation/schedule-after-cancel"); }
                 }
-                let r = cl.try_schedule(&op, d);
-                let oc = self.w.op_coq(&self.descs[*k].clone());
-                let res = match r { Ok(Ok(idb)) => Some(Some(self.w.id_ix(to_arr(&idb)))), _ => None };
+                let r = self.w.schedule(&ds, *d);
+                let oc = self.w.op_coq(&ds);
+                let res = r.map(|idb| Some(self.w.id_ix(idb)));
                 (format!("Schedule {} {}", oc, d), "schedule", res)
             }
             C::Execute(k) => {
                 let d = self.descs[*k].clone();
-                let op = self.w.operation(&d);
                 {   // the situation this execute meets (labels of their own for the coverage gate)
                     let st = self.state_ix(self.op_ids[*k]);
                     let pix = self.w.ids.iter().position(|x| *x == d.pred).unwrap_or(0);
                     let pst = self.state_ix(pix);
-                    let tgt_ok = d.target == 0 && d.f == 0;
+                    let tgt_ok = tgt_ok(&d);
                     let pred_ok = pix == 0 || pst == 3;
                     if st == 2 && !pred_ok { out.label("situation/execute-blocked-by-predecessor");
                         if self.cancelled.contains(&pix) && pst == 0 { out.label("situation/execute-predecessor-cancelled"); }
@@ -278,28 +558,32 @@ impl Tr {
                     if st == 2 && pred_ok && tgt_ok && pix != 0 { out.label("situation/execute-after-predecessor"); }
                     if st == 3 { out.label("situation/execute-again"); }
                 }
-                let r = cl.try_execute(&op);
+                let r = self.w.execute(&d);
                 let oc = self.w.op_coq(&d);
-                let tgt_ok = d.target == 0 && d.f == 0;
-                (format!("Execute {} {}", oc, b(tgt_ok)), if tgt_ok { "execute" } else { "execute_badtarget" }, match r { Ok(Ok(_)) => Some(None), _ => None })
+                let tgt_ok = tgt_ok(&d);
+                (format!("Execute {} {}", oc, b(tgt_ok)), if tgt_ok { "execute" } else { "execute_badtarget" }, if r { Some(None) } else { None })
             }
-            C::SetExecute(k) => {
+            C::SetExecute(k) | C::SetExecuteDirect(k) => {
                 let d = self.descs[*k].clone();
-                let op = self.w.operation(&d);
-                let r = cl.try_set_exec(&op);
+                // the controller reaches set_execute_operation alone only for operations that target itself
+                if self.w.kind.is_ctrl() && d.target != T_SELF { return true; }
+                let direct = matches!(c, C::SetExecuteDirect(_));
+                // with executors configured the direct invocation is left to the C09 harness
+                if direct && self.w.kind.execs() { return true; }
+                let r = self.w.set_exec(&d, direct);
                 let oc = self.w.op_coq(&d);
-                (format!("SetExecute {}", oc), "set_execute", match r { Ok(Ok(_)) => Some(None), _ => None })
+                (format!("SetExecute {}", oc), if direct { "set_execute_direct" } else { "set_execute" }, if r { Some(None) } else { None })
             }
             C::Cancel(ix) => {
-                let idb = self.w.bytes(&self.w.ids[*ix]);
+                let id = self.w.ids[*ix];
                 if self.state_ix(*ix) == 3 { out.label("situation/cancel-done"); }
-                let r = cl.try_cancel(&idb);
-                if matches!(r, Ok(Ok(_))) { self.cancelled.insert(*ix); }
-                (format!("Cancel {}", n(*ix as u64)), "cancel", match r { Ok(Ok(_)) => Some(None), _ => None })
+                let r = self.w.cancel(&id);
+                if r { self.cancelled.insert(*ix); }
+                (format!("Cancel {}", n(*ix as u64)), "cancel", if r { Some(None) } else { None })
             }
             C::SetMin(d) => {
-                let r = cl.try_set_min(d);
-                (format!("SetMinDelay {}", d), "set_min_delay", match r { Ok(Ok(_)) => Some(None), _ => None })
+                let r = self.w.set_min(*d);
+                (format!("SetMinDelay {}", d), "set_min_delay", if r { Some(None) } else { None })
             }
             C::Advance(k) => {
                 let nn = self.w.now.checked_add(*k).filter(|v| *v <= CAP);
@@ -313,19 +597,23 @@ impl Tr {
         let o = match res { Some(Some(i)) => format!("(OkI {})", n(i)), Some(None) => "OkN".to_string(), None => "Bad".to_string() };
         // ids first seen in a result enlarge nothing: the universe is fixed by the header
         let obs = observe(&self.w, self.nids, &self.tags);
+        let lab = self.lab(lab);
         out.case(&format!("{}/{}", lab, if res.is_some() { "ok" } else { "fail" }), &format!("{}@{}", text, obs));
         self.items.push(format!("({}, {}, {})", text, o, obs));
         res.is_some()
     }
 
+    fn run(&mut self, out: &mut Out, script: &[C]) { for c in script.iter() { self.call(out, c); } }
+    /// advance to the absolute ledger `to` (>= now)
+    fn advance_to(&mut self, out: &mut Out, to: u32) { let k = to - self.w.now; self.call(out, &C::Advance(k)); }
+
     fn finish(mut self, out: &mut Out, desc: &str) {
         let nn = self.items.len();
         // the id of every descriptor is measured again at the end of the trace (other ledger, other storage): a different
         // value is added to the table, which then is no function any more (tbl_ok fails -> monitor failure)
-        let c = TlClient::new(&self.w.e, &self.w.tl);
         for k in 0..self.descs.len() {
             let d = self.descs[k].clone();
-            let h = match c.try_hash(&self.w.operation(&d)) { Ok(Ok(v)) => to_arr(&v), _ => [0xEEu8; 32] };
+            let h = self.w.hash(&d);
             let ix = self.w.id_ix(h) as usize;
             if ix != self.op_ids[k] { let oc = self.w.op_coq(&d); self.tbl.push(pair(&oc, &n(ix as u64))); }
         }
@@ -333,19 +621,20 @@ impl Tr {
         let idl: std::vec::Vec<String> = (0..self.nids).map(|k| n(k as u64)).collect();
         let tagl: std::vec::Vec<String> = self.tags.iter().map(|t| n(*t as u64)).collect();
         let header = format!("(Hdr {} {} {} {} {} {} {})", self.now0, list(&idl), list(&tagl), list(&self.tbl), UNSET_LEDGER, DONE_LEDGER, self.obs0);
-        out.trace(desc, format!("({}, {})", header, list(&self.items)), nn);
+        out.trace(&format!("{}:{}", self.w.kind.name(), desc), format!("({}, {})", header, list(&self.items)), nn);
     }
 
     // ---- state the generator may read (adaptive generation) ----
     /// 0 Unset, 1 Waiting, 2 Ready, 3 Done (Unset when the getter traps)
-    fn state_ix(&self, ix: usize) -> u8 { match TlClient::new(&self.w.e, &self.w.tl).try_state_of(&self.w.bytes(&self.w.ids[ix])) { Ok(Ok(OperationState::Waiting)) => 1, Ok(Ok(OperationState::Ready)) => 2, Ok(Ok(OperationState::Done)) => 3, _ => 0 } }
-    fn ledger_of(&self, ix: usize) -> u32 { match TlClient::new(&self.w.e, &self.w.tl).try_ledger_of(&self.w.bytes(&self.w.ids[ix])) { Ok(Ok(v)) => v, _ => 0 } }
-    fn min_delay(&self) -> Option<u32> { match TlClient::new(&self.w.e, &self.w.tl).try_min_delay() { Ok(Ok(v)) => Some(v), _ => None } }
+    fn state_ix(&self, ix: usize) -> u8 { match self.w.g_state(&self.w.bytes(&self.w.ids[ix])) { Some(OperationState::Waiting) => 1, Some(OperationState::Ready) => 2, Some(OperationState::Done) => 3, _ => 0 } }
+    fn ledger_of(&self, ix: usize) -> u32 { self.w.g_ledger(&self.w.bytes(&self.w.ids[ix])).unwrap_or(0) }
+    fn min_delay(&self) -> Option<u32> { self.w.g_min() }
+    fn ix_of(&self, b: &[u8; 32]) -> usize { self.w.ids.iter().position(|x| x == b).expect("id of the universe") }
 }
 
 fn pick_delay(rng: &mut Rng, tr: &Tr) -> u32 {
     let m = tr.min_delay().unwrap_or(0);
-    match rng.below(18) {
+    match rng.below(19) {
         0 => 0,
         1 => 1,
         2 => m.saturating_sub(1),
@@ -357,6 +646,7 @@ fn pick_delay(rng: &mut Rng, tr: &Tr) -> u32 {
         11 => (u32::MAX - tr.w.now).saturating_add(1),
         12 => rng.next_u64() as u32,
         13 => (CAP - tr.w.now).saturating_sub(rng.below(2) as u32),
+        14 => *rng.pick(&DELAY_EDGES),
         _ => m.saturating_add(rng.below(6) as u32),
     }
 }
@@ -373,7 +663,15 @@ fn random_call0(rng: &mut Rng, tr: &Tr) -> C {
     match rng.below(100) {
         0..=27 => C::Schedule(k, pick_delay(rng, tr)),
         28..=45 => C::Execute(k),
-        46..=53 => C::SetExecute(k),
+        46..=53 => {
+            // the controller: only operations that target itself can be marked executed without an invocation
+            let k = if tr.w.kind.is_ctrl() {
+                let selfops: std::vec::Vec<usize> = (0..nops).filter(|i| tr.descs[*i].target == T_SELF).collect();
+                if selfops.is_empty() { return C::Execute(k); }
+                *rng.pick(&selfops)
+            } else { k };
+            if rng.chance(1, 3) { C::SetExecuteDirect(k) } else { C::SetExecute(k) }
+        }
         54..=65 => C::Cancel(if rng.chance(4, 5) { tr.op_ids[k] } else { rng.below(tr.nids as u64) as usize }),
         66..=73 => C::SetMin(match rng.below(8) { 0 => 0, 1 => 1, 2 => u32::MAX, 3 => rng.next_u64() as u32, _ => rng.below(8) as u32 }),
         _ => {
@@ -390,46 +688,43 @@ fn random_call0(rng: &mut Rng, tr: &Tr) -> C {
     }
 }
 
-fn main() {
-    let mut out = Out::new("From SC Require Import Lib.Prelude Lib.Int Lib.Host Model.Timelock Run.C08.\nOpen Scope Z_scope.", "check_all");
-    out.per_shard(600);
-    let mut rng = Rng::new(out.cfg.seed);
-    let thorough = out.cfg.thorough;
-    let scale = out.cfg.scale;
-
-    // ---------- directed corpus ----------
+/// the earlier directed corpus (run against the wrapper and against the controller: for the controller
+/// SetExecute of an operation that does not target it is skipped)
+fn directed_base(out: &mut Out, rng: &mut Rng, kind: Kind) {
     // 1. happy path with every boundary: schedule at min, ready-1, ready, execute twice, cancel/schedule after done
     for start in [2u32, 3, 1000] {
-        let mut tr = Tr::new(&mut rng, start, 3, 0, (start % 2) as usize);
+        if kind.is_ctrl() && start == 3 { continue; }
+        let mut tr = Tr::new(rng, kind, start, 3, 0, (start % 2) as usize, 5);
         let (a, bq) = (0usize, 1usize);
         let ida = tr.op_ids[a];
-        let script = [C::Schedule(a, 0), C::SetMin(5), C::Schedule(a, 4), C::Schedule(a, 5), C::Schedule(a, 5), C::Schedule(bq, 7),
+        let script = [C::Schedule(a, 0), C::SetMin(5), C::L("situation/set-min-delay-same-value"), C::SetMin(5), C::Schedule(a, 4), C::Schedule(a, 5), C::Schedule(a, 5), C::Schedule(bq, 7),
             C::Execute(a), C::Advance(4), C::Execute(a), C::SetExecute(a), C::Advance(1), C::Execute(bq), C::Execute(a), C::Execute(a), C::SetExecute(a),
             C::Cancel(ida), C::Schedule(a, 5), C::Schedule(a, 100), C::Advance(1), C::Execute(bq), C::Advance(1), C::Execute(bq), C::Execute(2), C::Schedule(2, 5), C::Advance(5), C::Execute(2), C::Cancel(tr.op_ids[2])];
-        for c in script.iter() { tr.call(&mut out, c); }
-        tr.finish(&mut out, "directed/happy-boundaries");
+        tr.run(out, &script);
+        tr.finish(out, "directed/happy-boundaries");
     }
     // 2. cancel then re-schedule; predecessor cancelled / unscheduled; min delay raised after scheduling
     {
-        let mut tr = Tr::new(&mut rng, 50, 3, 0, 0);
+        let mut tr = Tr::new(rng, kind, 50, 3, 0, 0, 2);
         let script = [C::SetMin(2), C::Schedule(0, 2), C::Schedule(1, 2), C::Advance(1), C::Cancel(tr.op_ids[0]), C::Cancel(tr.op_ids[0]), C::Advance(1), C::Execute(1), C::Execute(0),
-            C::Schedule(0, 3), C::SetMin(100), C::Advance(2), C::Execute(0), C::Advance(1), C::Execute(0), C::Execute(1), C::Schedule(2, 99), C::Schedule(2, 100), C::SetMin(0), C::Cancel(tr.op_ids[2]), C::Schedule(2, 0), C::Execute(2), C::SetExecute(2), C::Cancel(0), C::Cancel(1)];
-        for c in script.iter() { tr.call(&mut out, c); }
-        tr.finish(&mut out, "directed/cancel-reschedule-pred");
+            C::Schedule(0, 3), C::L("situation/min-delay-raised-after-schedule"), C::SetMin(100), C::Advance(2), C::Execute(0), C::Advance(1), C::Execute(0), C::Execute(1), C::Schedule(2, 99), C::Schedule(2, 100),
+            C::L("situation/min-delay-0"), C::SetMin(0), C::Cancel(tr.op_ids[2]), C::Schedule(2, 0), C::Execute(2), C::SetExecute(2), C::L("situation/cancel-zero-id"), C::Cancel(0), C::Cancel(1)];
+        tr.run(out, &script);
+        tr.finish(out, "directed/cancel-reschedule-pred");
     }
     // 3. saturation: delays near u32::MAX never become ready before the last ledger
     {
-        let mut tr = Tr::new(&mut rng, 10, 3, 1, 1);
+        let mut tr = Tr::new(rng, kind, 10, 3, 1, 1, 0);
         let script = [C::SetMin(0), C::Schedule(0, u32::MAX), C::Schedule(1, u32::MAX - 10), C::Schedule(2, u32::MAX - 11), C::Advance(1), C::Execute(0), C::Execute(1), C::Execute(2),
-            C::Advance(1_000_000), C::Execute(2), C::Cancel(tr.op_ids[0]), C::SetMin(u32::MAX), C::Schedule(0, u32::MAX - 1), C::Schedule(0, u32::MAX), C::Execute(0)];
-        for c in script.iter() { tr.call(&mut out, c); }
-        tr.finish(&mut out, "directed/saturation");
+            C::Advance(1_000_000), C::Execute(2), C::Cancel(tr.op_ids[0]), C::L("situation/min-delay-max"), C::SetMin(u32::MAX), C::Schedule(0, u32::MAX - 1), C::Schedule(0, u32::MAX), C::Execute(0)];
+        tr.run(out, &script);
+        tr.finish(out, "directed/saturation");
     }
-
     // 5. the five components of the id: descriptors differing in exactly one of target / function / arguments /
     //    predecessor / salt get different ids and independent state; + an operation whose predecessor was never scheduled
     for hc in 0..2usize {
-        let mut tr = Tr::new(&mut rng, 30 + hc as u32, 7, 9, hc);
+        if kind.is_ctrl() && hc != (if kind.execs() { 1 } else { 0 }) { continue; }
+        let mut tr = Tr::new(rng, kind, 30 + hc as u32, 7, 9, hc, 2);
         let ids = tr.op_ids.clone();
         let script = [C::SetMin(2), C::Schedule(0, 2), C::Schedule(1, 2), C::Schedule(2, 2), C::Schedule(3, 2), C::Schedule(4, 2), C::Schedule(5, 2), C::Schedule(6, 2),
             C::Schedule(0, 2),                                           // the same descriptor again: same id, already scheduled
@@ -442,53 +737,218 @@ fn main() {
             C::Cancel(ids[1]),                                           // cancelling one twin leaves the others alone
             C::Execute(3), C::Execute(4), C::Execute(5), C::SetExecute(2),
             C::Cancel(ids[0]), C::Schedule(0, 2), C::Schedule(1, 2), C::Advance(2), C::Execute(1), C::Execute(0)];
-        for c in script.iter() { tr.call(&mut out, c); }
-        tr.finish(&mut out, &format!("directed/id-components-host{}", hc));
+        tr.run(out, &script);
+        tr.finish(out, &format!("directed/id-components-host{}", hc));
     }
-
     // 4. persistence: every kind of stored item (minimum delay, Waiting / Ready / Done marks, cancelled = absent)
     //    must survive long ledger gaps; each gap is ONE Advance, the observation after it reads everything once
     for hc in 0..2usize {
         for (gi, &gap) in LONG_GAPS.iter().enumerate() {
-            let mut tr = Tr::new(&mut rng, 100 + gi as u32, 4, 0, hc);   // chain A <- B <- C <- D
+            // the controller stores through the same library functions: two gaps per host configuration suffice
+            if kind.is_ctrl() && !(hc == (if kind.execs() { 1 } else { 0 }) && (gi == 2 || gi == 5)) { continue; }
+            let mut tr = Tr::new(rng, kind, 100 + gi as u32, 4, 0, hc, 3);   // chain A <- B <- C <- D
             let ids = tr.op_ids.clone();
             let pre = [C::SetMin(3), C::Schedule(0, 3), C::Schedule(1, 3), C::Schedule(2, gap.saturating_add(5)), C::Schedule(3, 3), C::Advance(3), C::Execute(0), C::Cancel(ids[3])];
-            for c in pre.iter() { tr.call(&mut out, c); }
+            tr.run(out, &pre);
             // A is Done, B is Ready, C is Waiting beyond the gap, D cancelled (absent), min delay 3
-            tr.call(&mut out, &C::Advance(gap));
+            tr.call(out, &C::Advance(gap));
             let post = [C::Schedule(0, 3), C::Cancel(ids[0]), C::Execute(0), C::SetExecute(0),   // Done forever
                 C::Schedule(3, 2), C::Schedule(3, 3),                                            // min delay still in force; D re-schedulable
                 C::Execute(2),                                                                   // C still waiting (gap + 5 > gap + 3 ... ready at +2)
                 C::Execute(1), C::Execute(1), C::Advance(2), C::Execute(2), C::Cancel(ids[1]), C::Schedule(1, 3)];
-            for c in post.iter() { tr.call(&mut out, c); }
-            tr.call(&mut out, &C::Advance(gap));
+            tr.run(out, &post);
+            tr.call(out, &C::Advance(gap));
             let post2 = [C::Schedule(0, 3), C::Schedule(1, 3), C::Schedule(2, 3), C::Execute(3), C::Execute(3), C::Cancel(ids[2])];
-            for c in post2.iter() { tr.call(&mut out, c); }
-            tr.finish(&mut out, &format!("directed/persistence-gap{}-host{}", gap, hc));
+            tr.run(out, &post2);
+            tr.finish(out, &format!("directed/persistence-gap{}-host{}", gap, hc));
         }
     }
+}
+
+/// follow-up corpus: special addresses as parties (K1), unusual legal values (K2), sibling entry paths (K3),
+/// collaborator behaviours (K4), aliasing (K5), multi-step histories (K6).  Every label is emitted next to the
+/// call that meets the situation on the unchanged tree.
+fn directed_classes(out: &mut Out, kind: Kind) {
+    let hc = if kind.execs() { 1 } else { 0 };
+    let z = || B32::Zero;
+    let self_tags: [u32; 2] = if kind.is_ctrl() { [7, 8] } else { [1, 2] };
+
+    // ---- S1 (K1, K3, K5): operations whose target is the timelock contract itself; an account address as target ----
+    {
+        let specs = [
+            sp(T_TGT, F_BUMP, 1, z(), z()),                                 // 0 A   external
+            sp(T_SELF, F_SELF, self_tags[0], z(), z()),                     // 1 S   targets the timelock itself
+            sp(T_SELF, F_SELF, self_tags[0], B32::IdOf(1), B32::Small(1)),  // 2 S2  the same call again, after S
+            sp(T_SELF, F_SELF, self_tags[1], B32::IdOf(0), z()),            // 3 S3  self-targeting, after the external A
+            sp(T_ACCT, F_BUMP, 2, z(), z()),                                // 4 Acc an account (G...) address as target
+            sp(T_TGT, F_BUMP, 3, B32::IdOf(2), z()),                        // 5 E   external, after the self-targeting S2
+        ];
+        let mut tr = Tr::build(kind, 40, hc, 3, &[], &specs);
+        let ids = tr.op_ids.clone();
+        let script = [C::SetMin(3),
+            C::L("situation/self-target-schedule-below-min-delay"), C::Schedule(1, 2),
+            C::Schedule(1, 3), C::Schedule(2, 3), C::Schedule(3, 3), C::Schedule(0, 3), C::Schedule(4, 3), C::Schedule(5, 3),
+            C::Advance(2), C::L("situation/self-target-set-execute-early"), C::SetExecute(1), C::SetExecuteDirect(1),
+            C::Advance(1),
+            C::L("situation/self-target-execute-reentry"), C::Execute(1),                       // the host refuses re-entry: rolls back, stays Ready
+            C::L("situation/self-target-set-execute-blocked-by-predecessor"), C::SetExecute(2), C::SetExecute(3), C::SetExecuteDirect(2),
+            C::Execute(5),                                                                      // external op blocked by a self-targeting predecessor
+            C::L("situation/self-target-set-execute-ready"), C::SetExecute(1),
+            C::L("situation/self-target-set-execute-again"), C::SetExecute(1), C::SetExecuteDirect(1), C::Execute(1),
+            C::Schedule(1, 3), C::Cancel(ids[1]),                                               // Done forever
+            C::L("situation/sibling-done-by-set-execute-then-successor"), C::SetExecuteDirect(2), C::SetExecute(2), C::Execute(5),
+            C::L("situation/account-target-execute"), C::Execute(4), C::Execute(4), C::Cancel(ids[4]),
+            C::Execute(0), C::L("situation/sibling-done-by-execute-then-set-execute-successor"), C::SetExecute(3), C::SetExecute(3), C::SetExecuteDirect(3),
+            C::SetExecute(2), C::Execute(0), C::Execute(5)];
+        tr.run(out, &script);
+        tr.finish(out, "classes/self-target");
+    }
+
+    // ---- S2 (K2, K5): special 32-byte values as predecessor / salt / cancelled id; ledger 2; delays 0 and 1 ----
+    {
+        let specs = [
+            sp(T_TGT, F_BUMP, 1, z(), z()),                                  // 0 A
+            sp(T_TGT, F_BUMP, 2, B32::Raw(ALL_ONES), z()),                   // 1 predecessor = 32 x 0xFF (never an operation)
+            sp(T_TGT, F_BUMP, 3, B32::Raw(LOW1), z()),                       // 2 predecessor = 00..01
+            sp(T_TGT, F_BUMP, 4, B32::Raw(HIGH1), z()),                      // 3 predecessor = 01..00
+            sp(T_TGT, F_BUMP, 1, z(), B32::Raw(ALL_ONES)),                   // 4 salt = 32 x 0xFF
+            sp(T_TGT, F_BUMP, 1, B32::IdOf(0), B32::Raw(XRAW)),              // 5 predecessor = id(A), salt = X
+            sp(T_TGT, F_BUMP, 1, B32::Raw(XRAW), B32::IdOf(0)),              // 6 predecessor = X,     salt = id(A)   (swapped)
+            sp(T_TGT, F_BUMP, 2, B32::IdOf(0), B32::IdOf(0)),                // 7 predecessor = salt = id(A)
+        ];
+        let mut tr = Tr::build(kind, 2, hc, 0, &[ALL_ONES, LOW1, HIGH1, XRAW], &specs);
+        let ids = tr.op_ids.clone();
+        let (i1, il, ih) = (tr.ix_of(&ALL_ONES), tr.ix_of(&LOW1), tr.ix_of(&HIGH1));
+        let script = [C::SetMin(0),
+            C::L("situation/schedule-delay-0-at-ledger-2"), C::Schedule(0, 0),                  // stored ready ledger 2: the smallest that is no sentinel
+            C::L("situation/cancel-all-ones-id"), C::Cancel(i1), C::Cancel(il), C::Cancel(ih), C::Cancel(0),
+            C::Schedule(1, 0), C::Schedule(2, 0), C::Schedule(3, 0), C::Schedule(4, 0), C::Schedule(5, 0), C::Schedule(6, 0), C::Schedule(7, 0),
+            C::L("situation/predecessor-all-ones"), C::Execute(1), C::SetExecute(1),
+            C::L("situation/predecessor-low-byte-only"), C::Execute(2), C::SetExecute(2),
+            C::L("situation/predecessor-high-byte-only"), C::Execute(3), C::SetExecute(3),
+            C::Execute(5), C::Execute(7),                                                       // A not yet executed
+            C::L("situation/execute-at-ledger-2"), C::Execute(0),
+            C::L("situation/salt-all-ones"), C::Execute(4),
+            C::L("pair/predecessor-salt-swapped"), C::Execute(5), C::Execute(6), C::SetExecute(6),
+            C::L("situation/predecessor-equals-salt"), C::Execute(7),
+            C::Cancel(ids[1]), C::L("situation/min-delay-1"), C::SetMin(1), C::Schedule(1, 0),
+            C::L("situation/schedule-delay-1"), C::Schedule(1, 1), C::Cancel(ids[2]), C::Schedule(2, 1), C::Execute(2), C::Advance(1), C::Execute(2), C::Execute(1),
+            C::Cancel(il), C::Cancel(i1)];
+        tr.run(out, &script);
+        tr.finish(out, "classes/special-values");
+    }
+
+    // ---- S3 (K2): the boundary catalogue of delays: refused at ready - 1, executed at ready ----
+    {
+        let specs: std::vec::Vec<Spec> = (0..DELAY_EDGES.len()).map(|k| sp(T_TGT, F_BUMP, 1 + (k as u32 % 4), z(), B32::Small(k as u8))).collect();
+        let start = 100u32;
+        let mut tr = Tr::build(kind, start, hc, 2, &[], &specs);
+        tr.call(out, &C::SetMin(2));
+        for (k, d) in DELAY_EDGES.iter().enumerate() { tr.call(out, &C::Schedule(k, *d)); }
+        for (k, d) in DELAY_EDGES.iter().enumerate() {
+            tr.advance_to(out, start + d - 1);
+            tr.call(out, &C::Execute(k));
+            tr.call(out, &C::Advance(1));
+            out.label(&format!("delay-edge/{}", d));
+            tr.call(out, &C::Execute(k));
+        }
+        tr.finish(out, "classes/delay-edges");
+    }
+
+    // ---- S4 (K4, K2): what the invoked target does; function symbols and argument vectors of unusual shape ----
+    {
+        let specs = [
+            sp(T_TGT, F_BUMP, 1, z(), z()),       // 0  succeeds
+            sp(T_TGT, F_BOOM, 1, z(), z()),       // 1  traps
+            sp(T_TGT, F_NOPE, 1, z(), z()),       // 2  no such function
+            sp(T_TGT, F_EMPTY, 1, z(), z()),      // 3  the empty symbol
+            sp(T_TGT, F_BUMPX, 1, z(), z()),      // 4  name extends "bump": a function of its own, succeeds
+            sp(T_TGT, F_ERR, 1, z(), z()),        // 5  returns a contract error
+            sp(T_TGT, F_REENTER, 1, z(), z()),    // 6  calls back into the timelock
+            sp(T_TGT, F_UNIT, 2, z(), z()),       // 7  returns a value of another type, succeeds
+            sp(T_TGT, F_CASE, 1, z(), z()),       // 8  "Bump": no such function
+            sp(T_DEAD, F_BUMP, 1, z(), z()),      // 9  no contract at the address
+            sp(T_ACCT, F_BUMP, 1, z(), z()),      // 10 an account address
+            sp(T_TGT, F_BUMP0, 5, z(), z()),      // 11 empty argument vector, succeeds
+            sp(T_TGT, F_BUMP, 5, z(), z()),       // 12 empty argument vector for a unary function
+            sp(T_TGT, F_BUMP2, 6, z(), z()),      // 13 [1, 1], succeeds
+            sp(T_TGT, F_BUMP, 6, z(), z()),       // 14 [1, 1] for a unary function
+        ];
+        let labels = ["", "situation/execute-target-traps", "situation/execute-target-missing-function", "situation/execute-empty-function-symbol", "pair/function-prefix-variant",
+            "situation/execute-target-returns-error", "situation/execute-target-reenters", "situation/execute-target-returns-unit", "pair/function-case-variant",
+            "situation/execute-target-no-contract", "situation/execute-target-is-account", "pair/args-empty", "situation/execute-args-empty-wrong-arity", "pair/args-duplicate", "situation/execute-args-duplicate-wrong-arity"];
+        let mut tr = Tr::build(kind, 60, hc, 1, &[], &specs);
+        let ids = tr.op_ids.clone();
+        tr.call(out, &C::SetMin(1));
+        for k in 0..specs.len() { tr.call(out, &C::Schedule(k, 1)); }
+        tr.call(out, &C::Advance(1));
+        for k in 0..specs.len() {
+            if !labels[k].is_empty() { out.label(labels[k]); }
+            let ok = tr.call(out, &C::Execute(k));
+            tr.call(out, &C::Execute(k));                                  // again: Done refuses / a failed invocation left it Ready
+            if !ok { if k % 2 == 0 { tr.call(out, &C::SetExecute(k)); } tr.call(out, &C::Cancel(ids[k])); }
+        }
+        tr.finish(out, "classes/collaborators");
+    }
+
+    // ---- S5 (K6, K5): histories: stale ready ledger, re-scheduling shorter / longer, predecessor re-scheduled ----
+    {
+        let specs = [sp(T_TGT, F_BUMP, 1, z(), z()), sp(T_TGT, F_BUMP, 2, B32::IdOf(0), z()), sp(T_TGT, F_BUMP, 3, B32::IdOf(1), z()), sp(T_TGT, F_BUMP, 4, z(), z())];
+        let mut tr = Tr::build(kind, 20, hc, 2, &[], &specs);
+        let ids = tr.op_ids.clone();
+        let script = [C::SetMin(2), C::Schedule(0, 2), C::Schedule(1, 2), C::Schedule(2, 2),                 // all ready at 22
+            C::Advance(1), C::Cancel(ids[0]), C::SetMin(5), C::Schedule(0, 4), C::Schedule(0, 5),                 // A again: ready at 26
+            C::Advance(1), C::L("situation/execute-at-stale-ready-ledger"), C::Execute(0), C::SetExecute(0),      // 22: the first schedule's ledger
+            C::Execute(1),                                                                                        // blocked: A pending
+            C::Cancel(ids[0]), C::Execute(1),                                                                     // blocked: A cancelled
+            C::L("situation/reschedule-shorter-after-cancel"), C::SetMin(1), C::Schedule(0, 1),                   // A a third time: ready at 23
+            C::Execute(0), C::Advance(1), C::Execute(0),
+            C::L("situation/predecessor-rescheduled-then-executed"), C::Execute(1),
+            C::L("situation/successor-rescheduled-after-predecessor-done"), C::Cancel(ids[2]), C::Schedule(2, 1), C::Execute(2), C::Advance(1), C::Execute(2),
+            C::Schedule(0, 1), C::Cancel(ids[0]), C::Execute(0), C::SetExecute(0),
+            C::Schedule(3, 1), C::Cancel(ids[3]), C::Schedule(3, 2), C::Cancel(ids[3]), C::Schedule(3, 1), C::Advance(1), C::Cancel(ids[3]), C::Execute(3),
+            C::L("situation/cancel-reschedule-thrice-then-execute"), C::Schedule(3, 1), C::Execute(3), C::Advance(1), C::Execute(3), C::Execute(3), C::Cancel(ids[3])];
+        tr.run(out, &script);
+        tr.finish(out, "classes/histories");
+    }
+}
+
+fn main() {
+    let mut out = Out::new("From SC Require Import Lib.Prelude Lib.Int Lib.Host Model.Timelock Run.C08.\nOpen Scope Z_scope.", "check_all");
+    out.per_shard(600);
+    let mut rng = Rng::new(out.cfg.seed);
+    let thorough = out.cfg.thorough;
+    let scale = out.cfg.scale;
+    let directed_only = std::env::var("VERIF_DIRECTED_ONLY").is_ok();
+
+    // ---------- directed corpus ----------
+    for kind in KINDS { directed_base(&mut out, &mut rng, kind); }
+    for kind in KINDS { directed_classes(&mut out, kind); }
 
     // ---------- random adaptive traces ----------
-    let ntraces = if thorough { 2500 } else { 260 } * scale;
+    let ntraces = if directed_only { 0 } else { (if thorough { 2500 } else { 250 }) * scale };
     for t in 0..ntraces {
+        // one trace in five runs against the example controller
+        let kind = match rng.below(10) { 0 => Kind::Ctrl { execs: false }, 1 => Kind::Ctrl { execs: true }, _ => Kind::Lib };
         let shape = rng.below(4);
         let nops = 2 + rng.below(if thorough { 6 } else { 5 }) as usize;
         let start = match rng.below(6) { 0 => 2, 1 => 3, 2 => 2 + rng.below(1000) as u32, 3 => 1_000_000 + rng.below(1000) as u32, _ => 2 + rng.below(50) as u32 };
         let hc = rng.below(2) as usize;
-        let mut tr = Tr::new(&mut rng, start, nops, shape, hc);
-        if rng.chance(9, 10) { let c = C::SetMin(match rng.below(5) { 0 => 0, 1 => 1, _ => rng.below(6) as u32 }); tr.call(&mut out, &c); }
+        let d0 = match rng.below(5) { 0 => 0, 1 => 1, _ => rng.below(6) as u32 };
+        let mut tr = Tr::new(&mut rng, kind, start, nops, shape, hc, d0);
+        if !kind.is_ctrl() && rng.chance(9, 10) { tr.call(&mut out, &C::SetMin(d0)); }
         let len = if thorough { 30 + rng.below(50) } else { 20 + rng.below(30) } as usize;
         for _ in 0..len { let c = random_call(&mut rng, &tr); tr.call(&mut out, &c); }
         tr.finish(&mut out, &format!("random/shape{}-{}", shape, t));
     }
 
     // ---------- thorough: exhaustive sequences over 2 ops x {schedule, execute, cancel, advance-to-ready} ----------
-    if thorough {
+    if thorough && !directed_only {
         let alphabet = 7usize; // sched A, sched B, exec A, exec B, cancel A, cancel B, advance
         let depth = 5u32;
         let total = alphabet.pow(depth);
         for code in 0..total {
-            let mut tr = Tr::new(&mut rng, 7, 2, 0, code % 2);
+            let mut tr = Tr::new(&mut rng, Kind::Lib, 7, 2, 0, code % 2, 2);
             tr.call(&mut out, &C::SetMin(2));
             let mut x = code;
             for _ in 0..depth {
